@@ -296,6 +296,98 @@ def run(prog: Program, res: Result) -> None:  # noqa: PLR0912, PLR0915
     check_newline_transparency(prog, res, "C20.R5")
     del ex
 
+    # ------------------------------------------------------------------ R7 the hex digit table of \\uXXXX
+    res.rule("C20.R7", "_parse_hex_digits accepts exactly the 22 hexadecimal digits and gives each its value: the chain of constant comparisons on the code unit, read as a table over all 128 ASCII code units, equals int(chr(c), 16) on 0-9 A-F a-f and rejects every other unit; the accumulated value is shifted by 4 bits per digit")
+    ph = prog.fn_opt("liquid2/unescape.py", "_parse_hex_digits")
+    if ph is None:
+        raise AnalysisError("_parse_hex_digits vanished")
+    loop = next((n for n in ast.walk(ph.node) if isinstance(n, ast.For)), None)
+    dvar = loop.target.id if loop is not None and isinstance(loop.target, ast.Name) else None
+    what7 = "_parse_hex_digits: digit table equals 0-9 A-F a-f -> 0..15"
+    table: dict[int, int | None] | None = {}
+    if loop is None or dvar is None:
+        table = None
+    else:
+        def _cmp(e: ast.AST, c: int) -> bool | None:
+            if isinstance(e, ast.BoolOp):
+                vs = [_cmp(v, c) for v in e.values]
+                if any(v is None for v in vs):
+                    return None
+                return all(vs) if isinstance(e.op, ast.And) else any(vs)
+            if isinstance(e, ast.UnaryOp) and isinstance(e.op, ast.Not):
+                v = _cmp(e.operand, c)
+                return None if v is None else not v
+            if isinstance(e, ast.Compare):
+                vals = []
+                for x in [e.left, *e.comparators]:
+                    if isinstance(x, ast.Name) and x.id == dvar:
+                        vals.append(c)
+                    elif isinstance(x, ast.Constant) and isinstance(x.value, int):
+                        vals.append(x.value)
+                    else:
+                        return None
+                ok = True
+                for (a, b), op in zip(zip(vals, vals[1:]), e.ops):
+                    r = {ast.Lt: a < b, ast.LtE: a <= b, ast.Gt: a > b, ast.GtE: a >= b, ast.Eq: a == b, ast.NotEq: a != b}.get(type(op))
+                    if r is None:
+                        return None
+                    ok = ok and r
+                return ok
+            return None
+
+        def _val(e: ast.AST, c: int) -> int | None:
+            if isinstance(e, ast.Constant) and isinstance(e.value, int):
+                return e.value
+            if isinstance(e, ast.Name) and e.id == dvar:
+                return c
+            if isinstance(e, ast.BinOp) and isinstance(e.op, (ast.Add, ast.Sub)):
+                a, b = _val(e.left, c), _val(e.right, c)
+                return None if a is None or b is None else (a + b if isinstance(e.op, ast.Add) else a - b)
+            return None
+
+        class _Undecided(Exception):
+            pass
+
+        def _walk(body: list[ast.stmt], c: int, acc: list) -> str:
+            """Follow the statements of the loop body for code unit c: 'raise' when it is rejected, 'next' when the body ends."""
+            for st in body:
+                if isinstance(st, ast.If):
+                    t = _cmp(st.test, c)
+                    if t is None:
+                        raise _Undecided
+                    r = _walk(st.body if t else st.orelse, c, acc)
+                    if r == "raise":
+                        return r
+                elif isinstance(st, ast.Raise):
+                    return "raise"
+                elif isinstance(st, ast.AugAssign) and isinstance(st.op, ast.BitOr):
+                    v = _val(st.value, c)
+                    if v is None:
+                        raise _Undecided
+                    acc.append(v)
+                elif isinstance(st, ast.AugAssign) and isinstance(st.op, ast.LShift):
+                    continue
+                elif isinstance(st, (ast.Pass, ast.Expr)):
+                    continue
+                else:
+                    raise _Undecided
+            return "next"
+
+        try:
+            for c in range(128):
+                acc: list = []
+                r = _walk(loop.body, c, acc)
+                table[c] = acc[0] if (r == "next" and len(acc) == 1) else None
+        except _Undecided:
+            table = None
+    shift_ok = loop is not None and any(isinstance(x, ast.AugAssign) and isinstance(x.op, ast.LShift) and isinstance(x.value, ast.Constant) and x.value.value == 4 for x in loop.body)
+    want = {c: (int(chr(c), 16) if chr(c) in "0123456789abcdefABCDEF" else None) for c in range(128)}
+    if table is not None and table == want and shift_ok:
+        res.ok("C20.R7", f"{ph.file}:{ph.node.lineno} _parse_hex_digits", what7, "22 digits, values 0..15, 4-bit shift")
+    else:
+        bad = sorted(c for c in range(128) if table is not None and table.get(c) != want[c])
+        res.fail("C20.R7", file=ph.file, line=ph.node.lineno, qualname="_parse_hex_digits", construct="hex digit table differs from 0-9 A-F a-f" if table is not None else "hex digit table not recognised", message=("_parse_hex_digits " + (f"treats {[chr(c) for c in bad[:6]]} differently from hexadecimal ({[table.get(c) for c in bad[:6]]} instead of {[want[c] for c in bad[:6]]})" if table is not None and bad else ("does not shift by 4 bits per digit" if table is not None else "is no longer a chain of constant range tests (not decided)")) + ": a \\\\uXXXX escape decodes to another character or a valid escape is rejected"), what=what7)
+
 
 def _is_token_only_use(c: ast.Call, var: str) -> bool:
     """Call passes var only as a `token=`/first positional token argument alongside a decoded value (constructor)."""
